@@ -912,6 +912,33 @@ def _mpu_stride(prog: Program, ci: ClassInfo) -> List[Instance]:
             ok = bool(defs) and all(isinstance(d, ast.Attribute) and d.attr == "min_write_sz" for d in defs)
             out.append(Instance("R-MPU", f"{mwf.qual}#STRIDE:lhs_keep", OK if ok else BAD,
                                 "bytes reserved for the header part equal the writer's minimum part size" if ok else "left reservation is not the writer's min_write_sz: the header part can end up undersized", mwf.where()))
+    # RANGE: a part id handed to the writer never comes from an integer literal - the allowed range starts at the
+    # writer's min_part, so the header / left-over part is min_part, not 1 (the only literal allowed is the
+    # writer-less dry run, guarded by `write is None`)
+    n_lit = 0
+    for fi in prog.all_functions({"cog._mpu"}):
+        cond = None
+        for n in walk_own(fi.node):
+            lits: List[Tuple[ast.AST, str]] = []
+            if isinstance(n, ast.Call):
+                for k in n.keywords:
+                    if k.arg == "leftPartId" and const_num(k.value) is not None:
+                        lits.append((k.value, "leftPartId="))
+                if call_name(n) == "MPUChunk" and n.args and const_num(n.args[0]) is not None and "finaliz" in fi.name:
+                    lits.append((n.args[0], "first argument (part id) of MPUChunk()"))
+            if isinstance(n, ast.Assign) and len(n.targets) == 1 and isinstance(n.targets[0], ast.Name) and n.targets[0].id.lower() in ("partid", "first_part", "part_id"):
+                for c in ([n.value.body, n.value.orelse] if isinstance(n.value, ast.IfExp) else [n.value]):
+                    if const_num(c) is not None:
+                        # literal allowed only on the `write is None` side
+                        guard_none = isinstance(n.value, ast.IfExp) and c is n.value.body and isinstance(n.value.test, ast.Compare) and isinstance(n.value.test.ops[0], ast.Is) and "write" in short(n.value.test.left) and isinstance(n.value.test.comparators[0], ast.Constant) and n.value.test.comparators[0].value is None
+                        if not guard_none:
+                            lits.append((c, f"`{short(n, 50)}`"))
+            for lit, what in lits:
+                n_lit += 1
+                out.append(Instance("R-MPU", f"{fi.qual}#RANGE:literal-part-id:{short(lit)}", BAD,
+                                    f"{what} is the literal {short(lit)}: part ids must lie in [write.min_part, write.max_part]; with min_part != 1 this id is out of range or collides with a data part", fi.where(n)))
+    if n_lit == 0:
+        out.append(Instance("R-MPU", "cog._mpu#RANGE:literal-part-id", OK, "no part id handed to a writer is an integer literal (header / left-over part uses write.min_part)", ""))
     return out
 
 
@@ -1167,13 +1194,28 @@ def rule_filesink(prog: Program) -> List[Instance]:
                             else "destination is opened in append mode without first being replaced by the first part: bytes of a pre-existing destination survive in front of the new data", f.where(opens[0])))
     else:
         out.append(Instance("R-MPU", f"{f.qual}#SINK:append-after-replace", INFO, "no append-mode open", f.where(), nontrivial=False))
+    # the parts directory is configurable (parts_base) and can be on another filesystem than the destination:
+    # os.rename / Path.rename / os.replace fail with EXDEV there, only a move that falls back to copy is sound
+    for r in replaced:
+        if split is not None and split[0] in org.deps_names(r):
+            xdev = call_name(r) in ("rename", "replace") and not (isinstance(r.func, ast.Attribute) and isinstance(r.func.value, ast.Name) and r.func.value.id == "shutil")
+            out.append(Instance("R-MPU", f"{f.qual}#SINK:cross-device", BAD if xdev else OK,
+                                f"`{short(r, 50)}` moves the first part onto the destination with a plain rename: parts_base may be on another filesystem (OSError 18, destination never produced)" if xdev
+                                else f"`{short(r, 50)}` moves the first part with a copy fallback (works across filesystems)", f.where(r)))
+    # a part can be empty (the sink accepts b''): mmap of a zero-length file raises
+    for n in walk_own(f.node):
+        if isinstance(n, ast.Call) and (dotted(n.func) or "").endswith("mmap.mmap"):
+            guarded = any(isinstance(x, ast.If) and any(isinstance(c, ast.Compare) and ("Size" in short(c) or "st_size" in short(c) or "len(" in short(c)) for c in ast.walk(x.test)) and any(y is n for y in ast.walk(x)) for x in walk_own(f.node))
+            out.append(Instance("R-MPU", f"{f.qual}#SINK:empty-part", OK if guarded else BAD,
+                                "mmap only of non-empty parts" if guarded else f"`{short(n, 50)}` maps every part, but a zero-length part (accepted by __call__) cannot be mmapped: finalise fails half way with 'cannot mmap an empty file'", f.where(n)))
     # the loop walks the rest in the given order (no sorted/reversed) and unlinks inside the loop
     loops = [n for n in walk_own(f.node) if isinstance(n, ast.For)]
     okl = False
     for lp in loops:
         it = lp.iter
         if split is not None and isinstance(it, ast.Name) and it.id in (split[1], parts_p):
-            writes = any(isinstance(x, ast.Call) and call_name(x) == "write" for x in ast.walk(lp))
+            # any way of pushing the part's bytes into the append handle
+            writes = any(isinstance(x, ast.Call) and call_name(x) in ("write", "writelines", "copyfileobj", "sendfile") for x in ast.walk(lp))
             unl = any(isinstance(x, ast.Call) and call_name(x) == "unlink" for x in ast.walk(lp))
             okl = writes and unl
     out.append(Instance("R-MPU", f"{f.qual}#SINK:in-order", OK if okl else BAD,
